@@ -5,6 +5,7 @@ import (
 	"fmt"
 	"iter"
 	"maps"
+	"reflect"
 	"slices"
 
 	"gopkg.in/yaml.v3"
@@ -339,4 +340,30 @@ func cloneValue(v any) any {
 	default:
 		return v
 	}
+}
+
+// containsMap reports whether the map m itself (not a copy of it) is v or is
+// reachable from v.
+func containsMap(v any, m map[string]any) bool {
+	switch v2 := v.(type) {
+	case map[string]any:
+		if reflect.ValueOf(v2).Pointer() == reflect.ValueOf(m).Pointer() {
+			return true
+		}
+
+		for _, x := range v2 {
+			if containsMap(x, m) {
+				return true
+			}
+		}
+
+	case []any:
+		for _, x := range v2 {
+			if containsMap(x, m) {
+				return true
+			}
+		}
+	}
+
+	return false
 }
